@@ -303,6 +303,8 @@ class ExprMixin:
 
     def default_of(self, shape):
         k = shape[0]
+        if k == "rec" and shape[1] in self.classes:
+            return VRec(shape[1], {f: self.default_of(self.shape(s_)) for f, s_ in self.classes[shape[1]]["fields"].items()})
         if k == "int" or k == "enum":
             return 0
         if k == "bool":
